@@ -1,8 +1,475 @@
 package vc
 
-// TryReplay derives a concrete input from the solver's model for a refuted obligation and runs it
-// against the real code with `go test -overlay`. Returns the replay file and whether the real run
-// violated the clause.
+import (
+	"bytes"
+	"context"
+	"fmt"
+	"go/types"
+	"os"
+	"os/exec"
+	"path/filepath"
+	"regexp"
+	"strconv"
+	"strings"
+	"time"
+)
+
+// Replay: from the solver's model of a refuted obligation build concrete arguments (scalars, byte slices,
+// pointers to structs, slices of pointers, one level of interfaces is not attempted), write an in-package
+// Go test that calls the real function, and run it against /repo through `go test -overlay`.
+// A safety obligation counts as reproduced when the real call panics.
+
+type cval struct {
+	kind   string // int, bool, bytes, string, ptr, nil, struct, slice, zero
+	typ    types.Type
+	i      string // integer literal
+	b      bool
+	bytes  []byte
+	fields []*cval
+	elems  []*cval
+	pointee *cval
+}
+
+type concretizer struct {
+	u      *Unit
+	script string // base query (sat)
+	fixed  []string // (assert (= term value)) accumulated
+	dir    string
+	nq     int
+	budget int
+}
+
+func (cz *concretizer) values(terms []*Term) ([]string, bool) {
+	if len(terms) == 0 {
+		return nil, true
+	}
+	u := cz.u
+	var sb strings.Builder
+	// strip the trailing (check-sat) of the base script and append fixed values
+	base := cz.script
+	if i := strings.LastIndex(base, "(check-sat)"); i >= 0 {
+		base = base[:i]
+	}
+	// declarations the base query did not need but the requested terms may
+	var extra strings.Builder
+	for _, n := range u.C.declOrd {
+		d := u.C.Decls[n]
+		if !strings.Contains(base, d) {
+			extra.WriteString(d)
+			extra.WriteByte('\n')
+		}
+	}
+	if k := strings.Index(base, Prelude); k >= 0 {
+		base = base[:k+len(Prelude)] + extra.String() + base[k+len(Prelude):]
+	}
+	sb.WriteString(base)
+	for _, f := range cz.fixed {
+		sb.WriteString(f)
+		sb.WriteByte('\n')
+	}
+	sb.WriteString("(check-sat)\n(get-value (")
+	var printed []string
+	for _, t := range terms {
+		var tb strings.Builder
+		u.C.print(&tb, t, nil, 0)
+		printed = append(printed, tb.String())
+		sb.WriteString(tb.String())
+		sb.WriteByte(' ')
+	}
+	sb.WriteString("))\n")
+	cz.nq++
+	file := filepath.Join(cz.dir, fmt.Sprintf("concretize%d.smt2", cz.nq))
+	os.WriteFile(file, []byte(sb.String()), 0o644)
+	defer os.Remove(file)
+	ctx, cancel := context.WithTimeout(context.Background(), 40*time.Second)
+	defer cancel()
+	out, _ := exec.CommandContext(ctx, "z3-new", "-T:30", file).CombinedOutput()
+	s := string(out)
+	if !strings.HasPrefix(strings.TrimSpace(s), "sat") {
+		return nil, false
+	}
+	// parse ((term value) (term value) ...)
+	body := s[strings.Index(s, "sat")+3:]
+	vals := parseValues(body, len(terms))
+	if vals == nil {
+		return nil, false
+	}
+	for i, v := range vals {
+		cz.fixed = append(cz.fixed, fmt.Sprintf("(assert (= %s %s))", printed[i], v))
+	}
+	return vals, true
+}
+
+// tryConstrain adds the constraint to the fixed set if the query stays satisfiable.
+func (cz *concretizer) tryConstrain(f *Term) bool {
+	var tb strings.Builder
+	cz.u.C.print(&tb, f, nil, 0)
+	as := "(assert " + tb.String() + ")"
+	cz.fixed = append(cz.fixed, as)
+	if _, ok := cz.values([]*Term{cz.u.C.True}); ok {
+		// values() appended a trivial fixing assert for "true"; harmless
+		return true
+	}
+	cz.fixed = cz.fixed[:len(cz.fixed)-1]
+	return false
+}
+
+// parseValues extracts the value s-expressions of a get-value answer.
+func parseValues(s string, n int) []string {
+	s = strings.TrimSpace(s)
+	if !strings.HasPrefix(s, "(") {
+		return nil
+	}
+	// tokenise into top-level pairs
+	depth := 0
+	var pairs []string
+	start := -1
+	for i := 0; i < len(s); i++ {
+		switch s[i] {
+		case '(':
+			depth++
+			if depth == 2 {
+				start = i
+			}
+		case ')':
+			if depth == 2 && start >= 0 {
+				pairs = append(pairs, s[start:i+1])
+				start = -1
+			}
+			depth--
+		case '|':
+			j := strings.IndexByte(s[i+1:], '|')
+			if j >= 0 {
+				i += j + 1
+			}
+		}
+	}
+	if len(pairs) != n {
+		return nil
+	}
+	var out []string
+	for _, p := range pairs {
+		// (term value): value is the last balanced expression
+		p = strings.TrimSpace(p[1 : len(p)-1])
+		v := lastSexp(p)
+		out = append(out, v)
+	}
+	return out
+}
+
+func lastSexp(p string) string {
+	p = strings.TrimSpace(p)
+	if strings.HasSuffix(p, ")") {
+		depth := 0
+		for i := len(p) - 1; i >= 0; i-- {
+			if p[i] == ')' {
+				depth++
+			} else if p[i] == '(' {
+				depth--
+				if depth == 0 {
+					return p[i:]
+				}
+			}
+		}
+	}
+	i := strings.LastIndexAny(p, " \t\n")
+	return p[i+1:]
+}
+
+func bvToInt(v string, signed bool, w int) string {
+	v = strings.TrimSpace(v)
+	var n uint64
+	switch {
+	case strings.HasPrefix(v, "#x"):
+		n, _ = strconv.ParseUint(v[2:], 16, 64)
+	case strings.HasPrefix(v, "#b"):
+		n, _ = strconv.ParseUint(v[2:], 2, 64)
+	default:
+		return "0"
+	}
+	if signed && w < 64 && n&(1<<uint(w-1)) != 0 {
+		return strconv.FormatInt(int64(n)-(1<<uint(w)), 10)
+	}
+	if signed && w == 64 {
+		return strconv.FormatInt(int64(n), 10)
+	}
+	return strconv.FormatUint(n, 10)
+}
+
+// build concretizes a value of type t located in the entry state.
+func (cz *concretizer) build(v Val, t types.Type, depth int) *cval {
+	u := cz.u
+	c := u.C
+	cz.budget--
+	if cz.budget < 0 || depth > 5 {
+		return &cval{kind: "zero", typ: t}
+	}
+	entry := &State{pc: c.True, mems: map[string]*Mem{}}
+	switch x := v.(type) {
+	case *Term:
+		if w, signed, ok := intWidth(t); ok {
+			vals, ok := cz.values([]*Term{x})
+			if !ok {
+				return &cval{kind: "zero", typ: t}
+			}
+			return &cval{kind: "int", typ: t, i: bvToInt(vals[0], signed, w)}
+		}
+		if isBool(t) {
+			vals, ok := cz.values([]*Term{x})
+			if !ok {
+				return &cval{kind: "zero", typ: t}
+			}
+			return &cval{kind: "bool", typ: t, b: strings.TrimSpace(vals[0]) == "true"}
+		}
+		if pt, ok := t.Underlying().(*types.Pointer); ok {
+			vals, ok := cz.values([]*Term{c.Eq(x, c.NilA)})
+			if !ok || strings.TrimSpace(vals[0]) == "true" {
+				return &cval{kind: "nil", typ: t}
+			}
+			if _, isStruct := pt.Elem().Underlying().(*types.Struct); isStruct {
+				pv := u.load(entry, x, pt.Elem())
+				return &cval{kind: "ptr", typ: t, pointee: cz.build(pv, pt.Elem(), depth+1)}
+			}
+			if _, isArr := pt.Elem().Underlying().(*types.Array); isArr {
+				return &cval{kind: "zero", typ: t}
+			}
+			pv := u.load(entry, x, pt.Elem())
+			return &cval{kind: "ptr", typ: t, pointee: cz.build(pv, pt.Elem(), depth+1)}
+		}
+		return &cval{kind: "zero", typ: t}
+	case *SliceV:
+		// prefer small inputs: constrain the length as far as the model allows
+		for _, k := range []uint64{8, 64, 1024, 65535} {
+			if cz.tryConstrain(c.ULe(x.Len, c.BVu(k, 64))) {
+				break
+			}
+		}
+		vals, ok := cz.values([]*Term{x.Len})
+		if !ok {
+			return &cval{kind: "zero", typ: t}
+		}
+		n, _ := strconv.ParseInt(bvToInt(vals[0], false, 64), 10, 64)
+		if n > 70000 {
+			return &cval{kind: "toolarge", typ: t}
+		}
+		var et types.Type = types.Typ[types.Uint8]
+		if st, ok := t.Underlying().(*types.Slice); ok {
+			et = st.Elem()
+		}
+		if b, ok := et.Underlying().(*types.Basic); ok && b.Kind() == types.Uint8 {
+			var terms []*Term
+			lim := n
+			if lim > 2048 {
+				lim = 2048
+			}
+			for i := int64(0); i < lim; i++ {
+				terms = append(terms, u.readCell(entry, "bv8", c.Idx(x.Base, c.AddRaw(x.Off, c.BVu(uint64(i), 64)))))
+			}
+			bs := make([]byte, n)
+			if bv, ok := cz.values(terms); ok {
+				for i := range bv {
+					k, _ := strconv.ParseUint(bvToInt(bv[i], false, 8), 10, 8)
+					bs[i] = byte(k)
+				}
+			}
+			kind := "bytes"
+			if x.Str {
+				kind = "string"
+			}
+			return &cval{kind: kind, typ: t, bytes: bs}
+		}
+		if n > 64 {
+			return &cval{kind: "toolarge", typ: t}
+		}
+		cv := &cval{kind: "slice", typ: t}
+		for i := int64(0); i < n; i++ {
+			ev := u.load(entry, c.Idx(x.Base, c.AddRaw(x.Off, c.BVu(uint64(i), 64))), et)
+			cv.elems = append(cv.elems, cz.build(ev, et, depth+1))
+		}
+		return cv
+	case *StructV:
+		cv := &cval{kind: "struct", typ: t}
+		for i, f := range x.F {
+			cv.fields = append(cv.fields, cz.build(f, x.T.Field(i).Type(), depth+1))
+		}
+		return cv
+	}
+	return &cval{kind: "zero", typ: t}
+}
+
+func (cv *cval) goExpr(q types.Qualifier) string {
+	ts := types.TypeString(cv.typ, q)
+	switch cv.kind {
+	case "int":
+		return fmt.Sprintf("%s(%s)", ts, cv.i)
+	case "bool":
+		return fmt.Sprintf("%v", cv.b)
+	case "nil":
+		return "(" + ts + ")(nil)"
+	case "bytes":
+		var sb strings.Builder
+		sb.WriteString(ts + "{")
+		for i, b := range cv.bytes {
+			if i > 0 {
+				sb.WriteByte(',')
+			}
+			fmt.Fprintf(&sb, "%d", b)
+		}
+		sb.WriteString("}")
+		return sb.String()
+	case "string":
+		return fmt.Sprintf("%s(%q)", ts, string(cv.bytes))
+	case "ptr":
+		if cv.pointee.kind == "struct" {
+			return "&" + cv.pointee.goExpr(q)
+		}
+		return fmt.Sprintf("func() %s { v := %s; return &v }()", ts, cv.pointee.goExpr(q))
+	case "struct":
+		st := cv.typ.Underlying().(*types.Struct)
+		var parts []string
+		for i, f := range cv.fields {
+			if f.kind == "zero" || f.kind == "toolarge" {
+				continue
+			}
+			parts = append(parts, fmt.Sprintf("%s: %s", st.Field(i).Name(), f.goExpr(q)))
+		}
+		return ts + "{" + strings.Join(parts, ", ") + "}"
+	case "slice":
+		var parts []string
+		for _, e := range cv.elems {
+			if e.kind == "zero" {
+				parts = append(parts, "nil")
+				if _, isPtr := e.typ.Underlying().(*types.Pointer); !isPtr {
+					return "nil"
+				}
+				continue
+			}
+			parts = append(parts, e.goExpr(q))
+		}
+		return ts + "{" + strings.Join(parts, ", ") + "}"
+	}
+	return "*new(" + ts + ")"
+}
+
+var nonIdent = regexp.MustCompile(`[^A-Za-z0-9_]`)
+
+// TryReplay returns the replay file and whether the real code violated the obligation on the derived input.
 func TryReplay(e *Engine, r Result, dir, name, scratch string) (string, bool) {
-	return "", false
+	if r.V.Status != "sat" || r.O.Expect != "unsat" || r.V.Script == "" {
+		return "", false
+	}
+	u := r.O.Unit
+	fn := u.Fn
+	if fn.Pkg == nil || u.entryState == nil {
+		return "", false
+	}
+	base, err := os.ReadFile(r.V.Script)
+	if err != nil {
+		return "", false
+	}
+	var file string
+	reproduced := false
+	func() {
+		defer func() {
+			if rec := recover(); rec != nil {
+				if os.Getenv("GOVC_DEBUG") != "" {
+					fmt.Fprintln(os.Stderr, "replay failed:", rec)
+				}
+				file = ""
+			}
+		}()
+		scriptMu.Lock()
+		defer scriptMu.Unlock()
+		cz := &concretizer{u: u, script: string(base), dir: scratch, budget: 400}
+		// prefer counterexamples in the first iteration of loops (their state is reachable from the inputs)
+		for _, pr := range u.loopFirst {
+			if pr[0].S == pr[1].S {
+				cz.tryConstrain(u.C.Eq(pr[0], pr[1]))
+			}
+		}
+		imports := map[string]string{}
+		self := fn.Pkg.Pkg
+		q := func(p *types.Package) string {
+			if p == self {
+				return ""
+			}
+			imports[p.Path()] = p.Name()
+			return p.Name()
+		}
+		var args []string
+		for i, p := range fn.Params {
+			cv := cz.build(u.params[i], p.Type(), 0)
+			if cv.kind == "toolarge" {
+				panic("too large")
+			}
+			args = append(args, cv.goExpr(q))
+		}
+		pkgDir, _ := filepath.Rel(e.RepoDir, filepath.Dir(e.Fset.Position(fn.Pos()).Filename))
+		testName := "TestGovcReplay_" + nonIdent.ReplaceAllString(fn.Name(), "_")
+		var sb bytes.Buffer
+		fmt.Fprintf(&sb, "// replay-package: %s\n// replay-test: %s\n", pkgDir, testName)
+		fmt.Fprintf(&sb, "// Replay of a refuted obligation, derived from the solver's model.\n// function:   %s\n// obligation: %s :: %s\n// source:     %s\n\n", r.O.Fn, r.O.Kind, r.O.Name, r.O.Pos)
+		fmt.Fprintf(&sb, "package %s\n\nimport (\n\t\"testing\"\n", self.Name())
+		// arguments first (to know imports)
+		var body bytes.Buffer
+		call := ""
+		if fn.Signature.Recv() != nil {
+			fmt.Fprintf(&body, "\trecv := %s\n", args[0])
+			for i, a := range args[1:] {
+				fmt.Fprintf(&body, "\ta%d := %s\n", i, a)
+			}
+			var as []string
+			for i := range args[1:] {
+				as = append(as, fmt.Sprintf("a%d", i))
+			}
+			call = fmt.Sprintf("recv.%s(%s)", fn.Name(), strings.Join(as, ", "))
+		} else {
+			var as []string
+			for i, a := range args {
+				fmt.Fprintf(&body, "\ta%d := %s\n", i, a)
+				as = append(as, fmt.Sprintf("a%d", i))
+			}
+			call = fmt.Sprintf("%s(%s)", fn.Name(), strings.Join(as, ", "))
+		}
+		for path, nm := range imports {
+			fmt.Fprintf(&sb, "\t%s %q\n", nm, path)
+		}
+		sb.WriteString(")\n\n")
+		fmt.Fprintf(&sb, "func %s(t *testing.T) {\n", testName)
+		sb.WriteString("\tdefer func() {\n\t\tif r := recover(); r != nil {\n\t\t\tt.Fatalf(\"GOVC-REPRODUCED: the real code panics on the model input: %v\", r)\n\t\t}\n\t}()\n")
+		sb.Write(body.Bytes())
+		fmt.Fprintf(&sb, "\t%s\n", call)
+		if r.O.Kind != "safety" {
+			fmt.Fprintf(&sb, "\tt.Logf(\"the call returned; the violated clause (%s) is stated in the header and must be compared by hand\")\n", strings.ReplaceAll(r.O.Kind, "\"", "'"))
+		}
+		sb.WriteString("}\n")
+		file = filepath.Join(dir, name+"_test.go")
+		if len(file) > 200 {
+			file = filepath.Join(dir, name[:100]+"_test.go")
+		}
+		os.WriteFile(file, sb.Bytes(), 0o644)
+		// run it against the real code
+		ov := filepath.Join(scratch, "ov_"+name[:min(40, len(name))]+".json")
+		os.WriteFile(ov, []byte(fmt.Sprintf("{\"Replace\": {%q: %q}}", filepath.Join(e.RepoDir, pkgDir, "zz_govc_replay_test.go"), file)), 0o644)
+		ctx, cancel := context.WithTimeout(context.Background(), 120*time.Second)
+		defer cancel()
+		cmd := exec.CommandContext(ctx, "bash", "-c", fmt.Sprintf("ulimit -v 4000000; cd %s && go test -overlay %s -vet=off -timeout 60s -count=1 -run '^%s$' ./%s", e.RepoDir, ov, testName, pkgDir))
+		cmd.Env = append(os.Environ(), "GOFLAGS=-mod=mod", "GOPROXY=off", "GOSUMDB=off", "GOTOOLCHAIN=local")
+		out, _ := cmd.CombinedOutput()
+		os.Remove(ov)
+		if bytes.Contains(out, []byte("GOVC-REPRODUCED")) {
+			reproduced = true
+		}
+		res := string(out)
+		if len(res) > 3000 {
+			res = res[:3000]
+		}
+		f, _ := os.OpenFile(file, os.O_APPEND|os.O_WRONLY, 0o644)
+		fmt.Fprintf(f, "\n/* result of running this replay against the real code (reproduced=%v):\n%s\n*/\n", reproduced, strings.ReplaceAll(res, "*/", "* /"))
+		f.Close()
+	}()
+	if file == "" {
+		return "", false
+	}
+	return file, reproduced
 }
